@@ -573,3 +573,9 @@ V("silent-key-starts-with-map-eq", "C01", "trie/utils/nodes.py", _KSW_OLD, "    
   edits=[("trie/utils/nodes.py", _KSW_OLD, "    else:\n        return all(map(operator.eq, full_key, partial_key))\n"), ("trie/utils/nodes.py", "def key_starts_with(full_key, partial_key):", "import operator\n\n\ndef key_starts_with(full_key, partial_key):")])
 V("c01-key-starts-with-map-ne", "C01", "trie/utils/nodes.py", _KSW_OLD, "", expect="inconclusive",
   edits=[("trie/utils/nodes.py", _KSW_OLD, "    else:\n        return all(map(operator.ne, full_key, partial_key))\n"), ("trie/utils/nodes.py", "def key_starts_with(full_key, partial_key):", "import operator\n\n\ndef key_starts_with(full_key, partial_key):")])
+
+# the SMT fold with (path >> i) & 1 over enumerate(reversed(branch)): right and wrong orientation
+_FOLD_OLD = "    for sibling_node in reversed(branch):\n        if path & target_bit:\n            node_hash = keccak(sibling_node + node_hash)\n        else:\n            node_hash = keccak(node_hash + sibling_node)\n        target_bit <<= 1\n"
+V("silent-calc-root-enumerate-shift", "C14", SM, _FOLD_OLD, "    for bit_index, sibling_node in enumerate(reversed(branch)):\n        if (path >> bit_index) & 1:\n            node_hash = keccak(sibling_node + node_hash)\n        else:\n            node_hash = keccak(node_hash + sibling_node)\n", expect="silent", props=["C14", "C15"])
+V("c14-calc-root-enumerate-shift-swapped", "C14", SM, _FOLD_OLD, "    for bit_index, sibling_node in enumerate(reversed(branch)):\n        if (path >> bit_index) & 1:\n            node_hash = keccak(node_hash + sibling_node)\n        else:\n            node_hash = keccak(sibling_node + node_hash)\n", rule="SIB5")
+V("c14-calc-root-enumerate-not-reversed", "C14", SM, _FOLD_OLD, "    for bit_index, sibling_node in enumerate(branch):\n        if (path >> bit_index) & 1:\n            node_hash = keccak(sibling_node + node_hash)\n        else:\n            node_hash = keccak(node_hash + sibling_node)\n", expect="inconclusive")
